@@ -9,6 +9,8 @@ import (
 	"os"
 	"path/filepath"
 
+	abcitypes "github.com/tendermint/tendermint/abci/types"
+
 	"github.com/shutter-network/rolling-shutter/rolling-shutter/app"
 
 	"github.com/shutter-network/rolling-shutter/rolling-shutter/shmsg"
@@ -35,11 +37,57 @@ func withInjection(in injected) appdrv.History {
 	return h
 }
 
+// prepareOracle: PrepareProposal / ProcessProposal never panic and PrepareProposal returns the
+// longest prefix of the offered transactions whose total size stays within MaxTxBytes
+// (oracle only: these two ABCI++ methods are not part of the Coq model).
+func prepareOracle(run *vh.Run, a *app.ShutterApp, h appdrv.History) {
+	var txs [][]byte
+	for _, c := range h.Calls {
+		if c.Kind == "deliver" {
+			txs = append(txs, c.Tx)
+		}
+	}
+	total := int64(0)
+	for _, t := range txs {
+		total += int64(len(t))
+	}
+	for _, max := range []int64{-1, 0, 1, total / 2, total - 1, total, total + 1, 1 << 62} {
+		var kept [][]byte
+		p, msg := vh.Guard(func() {
+			kept = a.PrepareProposal(abcitypes.RequestPrepareProposal{Txs: txs, MaxTxBytes: max}).Txs
+			a.ProcessProposal(abcitypes.RequestProcessProposal{Txs: kept})
+		})
+		if p {
+			run.Violate(vh.Violation{Key: "C10:panic", What: "PrepareProposal/ProcessProposal panicked: " + msg, Case: injected{History: h, At: -1}})
+			return
+		}
+		want, sum := 0, int64(0)
+		for _, t := range txs {
+			sum += int64(len(t))
+			if sum > max {
+				break
+			}
+			want++
+		}
+		if len(kept) != want {
+			run.Violate(vh.Violation{Key: "C10:prepare-proposal-not-longest-prefix", What: fmt.Sprintf("PrepareProposal kept %d of %d transactions for a limit of %d bytes, the longest fitting prefix has %d", len(kept), len(txs), max, want), Case: injected{History: h, At: -1}})
+			return
+		}
+		for i := range kept {
+			if !bytes.Equal(kept[i], txs[i]) {
+				run.Violate(vh.Violation{Key: "C10:prepare-proposal-not-longest-prefix", What: "PrepareProposal returned something that is not a prefix of the offered transactions", Case: injected{History: h, At: -1}})
+				return
+			}
+		}
+	}
+}
+
 func emit(run *vh.Run, h appdrv.History, tag string) ([]appdrv.Resp, string) {
 	rs, a, err := appdrv.RunHistory(h)
 	if err != nil {
 		panic(err)
 	}
+	prepareOracle(run, a, h)
 	id := run.NextID()
 	ok0 := 0
 	for i, r := range rs {
